@@ -44,7 +44,7 @@ ASSUMPTIONS = [
 MUST_REACH = {"events": 5000, "acks_translated_after_injection": 50, "acks_for_injected_swallowed": 50,
               "drops_with_piggybacked_acks": 20, "proxy_acks_for_dropped_reliable": 20, "resends_observed": 50,
               "budgets_exhausted": 5, "completions_by_ack": 50, "packetack_with_appended_acks": 20, "states": 300,
-              "older_ack_after_second_injection": 10, "protocol_level_events": 2000, "taken_reliable_sent_later": 50, "endpoint_retransmissions": 50, "retransmissions_dropped": 5, "walks_with_fractional_resend_interval": 10}
+              "older_ack_after_second_injection": 10, "protocol_level_events": 2000, "taken_reliable_sent_later": 50, "endpoint_retransmissions": 50, "retransmissions_dropped": 5, "walks_with_fractional_resend_interval": 10, "replays_of_handled_messages": 30}
 
 _ser = UDPMessageSerializer()
 _es = Settings()
@@ -67,7 +67,7 @@ for side in ("V", "S"):
         ACTIONS.append(f"{side}P{mode}")
 ACTIONS += ["IOr", "IOu", "IIr", "IIu", "D", "T1", "T3"]
 # walks (not the exhaustive part) also let the proxy TAKE an endpoint's reliable packet and send the copy itself
-WALK_ACTIONS = ACTIONS + ["VT", "ST", "VX", "SX", "VY", "SY", "Th"]
+WALK_ACTIONS = ACTIONS + ["VT", "ST", "VX", "SX", "VY", "SY", "Th", "VZ", "SZ"]
 
 
 class RecTransport(AbstractUDPTransport):
@@ -191,7 +191,7 @@ class Run:
                 self.viol("ack-for-id-never-sent", "an endpoint was shown an acknowledgement for a packet id it never sent",
                           target=target, ack=a, em=_j(em), sent=sorted(side.sent_ids))
 
-    def endpoint_packet(self, who, reliable, ack_mode, packet_ack_mode=None, resend=False):
+    def endpoint_packet(self, who, reliable, ack_mode, packet_ack_mode=None, resend=False, replay=False):
         """who in V/S sends its next packet. ack_mode: '-', 'A' (all seen), 'o' (oldest seen).
         packet_ack_mode: None or 'A'/'o'/'m' (m = PacketAck block for the oldest + appended acks for the rest)."""
         m = self.model
@@ -332,7 +332,40 @@ class Run:
                     m.used[direction].add(e["id"])
         for e in ems:
             self.deliver(e)
+        if replay:
+            self.replay_handled(direction, "CompletePingCheck")
         return True
+
+    def replay_handled(self, direction, name):
+        """The message the circuit has just dealt with (forwarded or dropped - its acknowledgements went where they had to) is
+        sent once more by an addon the documented way, as `circuit.send(message.take())`: a packet of the proxy's own, which
+        must not carry the endpoint's acknowledgements a second time."""
+        wire = self.last_handled()
+        if wire is None:
+            return
+        try:
+            self.circuit.send(wire.take())
+        except Exception as e:
+            self.viol("circuit-raises", "re-sending the copy of an already handled message raised", exc=repr(e)[:300])
+            return
+        self.ctx.count("replays_of_handled_messages")
+        ems = self.take_emissions()
+        if len(ems) != 1 or ems[0]["direction"] != direction or ems[0]["name"] != name:
+            self.viol("replayed-copy-not-sent-once", "the copy of an already handled message was not put on the wire exactly once",
+                      ems=_j(ems))
+        else:
+            e = ems[0]
+            if e["acks"] or e["blocks"] or e["flags"] & int(PacketFlags.ACK):
+                self.viol("replayed-copy-repeats-acks", "the copy of an already handled message carries that message's "
+                          "acknowledgements a second time", em=_j(e))
+                e = dict(e, acks=[], blocks=[])     # reported; keep the model's bookkeeping going
+            self._note_injected(direction, e)
+            ems = [e]
+        for e in ems:
+            self.deliver(e)
+
+    def last_handled(self):
+        return getattr(self, "_last_wire", None)
 
     def endpoint_taken(self, who):
         """An endpoint's reliable packet is taken by an addon (Message.take()): the proxy drops and acknowledges the original
@@ -391,6 +424,7 @@ class Run:
         """Circuit-level backend: the call sequence of handle_proxied_packet, written out."""
         wire = _deser.deserialize(data)
         wire.direction = direction
+        self._last_wire = wire
         self.circuit.collect_acks(wire)
         if dropping:
             self.circuit.drop_message(wire)
@@ -503,6 +537,8 @@ class Run:
             return self.endpoint_packet(who, True, "A", resend=True)
         if action[1] == "Y":
             return self.endpoint_packet(who, True, "A", resend="crossed")
+        if action[1] == "Z":
+            return self.endpoint_packet(who, False, "A", replay=True)
         if action[1] == "P":
             return self.endpoint_packet(who, False, "-", packet_ack_mode=action[2])
         return self.endpoint_packet(who, action[1] == "r", action[2])
@@ -519,8 +555,10 @@ class DropAddon:
         self.drop_next = False
         self.take_next = False
         self.taken = None
+        self.last_seen = None
 
     def handle_lludp_message(self, session, region, message):
+        self.last_seen = message
         if self.take_next:
             self.take_next = False
             self.taken = message.take()
@@ -571,6 +609,9 @@ class ProtocolRun(Run):
         self.addon.drop_next = False
         if exc is not None:
             raise exc
+
+    def last_handled(self):
+        return self.addon.last_seen
 
     def process_take(self, data, direction):
         self.addon.take_next = True
